@@ -572,7 +572,7 @@ class SourceHandler:
             self._params.fp.metadata_only = True
         else:
             assert self._put_req.source_file is not None
-            if not self._put_req.source_file.exists():
+            if not self.user.vfs.file_exists(self._put_req.source_file):
                 # TODO: Handle this exception in the handler, reset CFDP state machine
                 raise SourceFileDoesNotExist(self._put_req.source_file)
             file_size = self.user.vfs.file_size(self._put_req.source_file)
@@ -910,16 +910,15 @@ class SourceHandler:
         re-transmit file data PDUs of segments which were already sent."""
         assert self._put_req is not None
         assert self._put_req.source_file is not None
-        with open(self._put_req.source_file, "rb") as of:
-            file_data = self.user.vfs.read_from_opened_file(of, offset, read_len)
-            # TODO: Support for record continuation state not implemented yet. Segment metadata
-            #       flag is therefore always set to False. Segment metadata support also omitted
-            #       for now. Implementing those generically could be done in form of a callback,
-            #       e.g. abstractmethod of this handler as a first way, another one being
-            #       to expect the user to supply some helper class to split up a file
-            fd_params = FileDataParams(file_data=file_data, offset=offset, segment_metadata=None)
-            file_data_pdu = FileDataPdu(pdu_conf=self._params.pdu_conf, params=fd_params)
-            self._add_packet_to_be_sent(file_data_pdu)
+        file_data = self.user.vfs.read_data(self._put_req.source_file, offset, read_len)
+        # TODO: Support for record continuation state not implemented yet. Segment metadata
+        #       flag is therefore always set to False. Segment metadata support also omitted
+        #       for now. Implementing those generically could be done in form of a callback,
+        #       e.g. abstractmethod of this handler as a first way, another one being
+        #       to expect the user to supply some helper class to split up a file
+        fd_params = FileDataParams(file_data=file_data, offset=offset, segment_metadata=None)
+        file_data_pdu = FileDataPdu(pdu_conf=self._params.pdu_conf, params=fd_params)
+        self._add_packet_to_be_sent(file_data_pdu)
 
     def _prepare_eof_pdu(self, checksum: bytes) -> None:
         assert self._params.cond_code_eof is not None
